@@ -97,6 +97,8 @@ def _run(chk, binary, rng, thorough, nsc, nruns):
             files.append(("f%02d.txt" % k, ("\n".join(lines) + "\n").encode()))
         scs.append(("files", {"files": files, "opts": [], "cmds": ["-m", "yiw", "-g", "^MARK|(\\w{2,9} ){3}ZZZ", "-m", "P", "--end"], "stdin": None,
                               "threads": [16, 12, 8, 16, 12]}))
+    # several files, the biggest in the middle, one JSON document: the files come in the order they were given
+    scs.append(("files", {"files": [("a1.txt", b"ab cd\n"), ("b2.txt", big_text(rng, 40).encode()), ("c3.txt", b"zz yy\n")], "opts": ["--json"], "cmds": ["-c", "e", "-m", "w", "-c", "name=w2", "e"], "stdin": None}))
     # the same with many small files: little work per unit, so workers are forever looking for something to steal
     for rep in range(3 if thorough else 1):
         files = []
